@@ -135,6 +135,8 @@ pub fn run(ctx: &Ctx) -> Report {
     ];
     let n = ctx.cases(5000, 60_000);
     rep.run_stage("ast", || map_case(&cfg()), n, check_case);
+    let nt = ctx.cases(60, 800);
+    rep.run_stage("tall", || tall_case(&cfg()), nt, check_case);
     let nm = ctx.cases(3000, 40_000);
     rep.run_stage("mutant", || mutate::mut_case(&cfg()), nm, check_mutant);
     let corpus = corpus_cases(ctx);
@@ -174,7 +176,7 @@ pub fn corpus_cases(ctx: &Ctx) -> Vec<CorpusCase> {
 pub fn replay(stage: &str, case: &Value) -> Check {
     let mut st = Stats::new();
     match stage {
-        "ast" => check_case(&serde_json::from_value(case.clone()).map_err(|e| Fail::new("harness-replay", e.to_string()))?, &mut st),
+        "ast" | "tall" => check_case(&serde_json::from_value(case.clone()).map_err(|e| Fail::new("harness-replay", e.to_string()))?, &mut st),
         "mutant" => check_mutant(&serde_json::from_value(case.clone()).map_err(|e| Fail::new("harness-replay", e.to_string()))?, &mut st),
         "corpus" => check_corpus(&serde_json::from_value(case.clone()).map_err(|e| Fail::new("harness-replay", e.to_string()))?, &mut st),
         _ => Err(Fail::new("harness-replay", format!("unknown stage {stage}"))),
